@@ -948,6 +948,11 @@ def deserialize_function(proto: onnx.FunctionProto) -> _core.Function:
     inputs = [_core.Value(name=name) for name in proto.input]
     values: dict[str, _core.Value] = {v.name: v for v in inputs}  # type: ignore[misc]
     value_info = {info.name: info for info in getattr(proto, "value_info", [])}
+    # Value info is serialized for function inputs as well: restore their type, shape,
+    # doc string and metadata
+    for input_value in inputs:
+        if input_value.name in value_info:
+            deserialize_value_info_proto(value_info[input_value.name], input_value)
 
     for node in proto.node:
         _declare_node_outputs(
